@@ -544,16 +544,20 @@ static void run_longhold(Case &c)
         if(rc != 0) { c.violation("oracle:C06:wellformed-file-rejected", opn2_errorInfo(x.d)); opn2_close(x.d); return; }
         API("opn2_setTempo", opn2_setTempo(x.d, mult));
         const double t2 = (double)tk2 / 960.0;   // song time of the second note-on (default tempo: 960 ticks per second)
-        double delay = 0; long guard = 0; bool taken = false;
-        while(guard++ < 100000)
+        // real time advances in steps of at most `cap` seconds, as an audio-driven player would (inside one call the sequencer
+        // delivers its events before the note ages are advanced)
+        const double cap = r.pick((const double[]){0.064, 0.25, 1.0});
+        double wait = 0; long guard = 0; bool taken = false;
+        while(guard++ < 400000)
         {
             double pos = 0; API("opn2_positionTell", pos = opn2_positionTell(x.d));
+            double delay = std::min(wait, cap);
             if(!taken && pos + delay * mult >= t2 - 1e-4) { take_snapshot(x.d, x.tap, before); taken = true; }
             double nd = 0; API("opn2_tickEvents", nd = opn2_tickEvents(x.d, delay, 1e-6));
-            if(getenv("VERIF_TRACE")) fprintf(stderr, "[trace] pos=%.6f delay=%.6f nd=%.6f taken=%d t2=%.6f mult=%.2f atEnd=%d\n", pos, delay, nd, (int)taken, t2, mult, opn2_atEnd(x.d));
+            
             if(taken) { take_snapshot(x.d, x.tap, after); bool there = false; for(size_t ch = 0; ch < after.chip.size(); ch++) if(after.has_user(ch, 0, (unsigned)k2)) there = true; if(there || pos > t2 + 0.5) break; }
             int e = 0; API("opn2_atEnd", e = opn2_atEnd(x.d)); if(e) break;
-            delay = nd;
+            wait = nd;
         }
         bool there = false; for(size_t ch = 0; ch < after.chip.size(); ch++) if(after.has_user(ch, 0, (unsigned)k2)) there = true;
         if(!taken || !there) { c.inconclusive = true; count("longhold_second_note_not_observed"); opn2_close(x.d); return; }
